@@ -22,8 +22,8 @@ FamOne == { X("one", f, i, "none", "tp", "tp", << It(k, v) >>, 3) : f \in Fmts, 
           \cup { X("one", f, i, "none", "tp", "tp", << >>, 3) : f \in Fmts, i \in {"def", "preset", "presetb"} }
 FamPair == { X("pair", f, i, "none", "tp", "tp", IF o = 0 THEN << It("fBindToCPU", b), It("threadsCountMax", n) >>
                                                            ELSE << It("threadsCountMax", n), It("somethingElse", "9"), It("fBindToCPU", b) >>, 3) :
-              f \in Fmts, i \in {"preset", "presetb"}, o \in {0, 1}, b \in {"yes", "no", "maybe", ""},
-              n \in {"0", "3", "8", "12x", "300", "18446744073709551615"} }
+              f \in Fmts, i \in {"preset", "presetb"}, o \in {0, 1}, b \in (IF Quick THEN {"yes", "no", "maybe", ""} ELSE BindVals),
+              n \in (IF Quick THEN {"0", "3", "8", "12x", "300", "18446744073709551615"} ELSE NumVals) }
 FamCpu == { X("cpu", "xml", "def", "none", "tp", "tp", << It("fBindToCPU", b), It("threadsCountMax", n) >>, c) :
               b \in {"yes", "no"}, n \in {"0", "1", "3", "8"}, c \in {3, 1, -1, 8} }
 FamNull == { X("null", f, "presetb", nl, "tp", "tp", << It("fBindToCPU", "no"), It("threadsCountMax", "5") >>, 3) :
